@@ -82,6 +82,7 @@ type CAOpts struct {
 	ExtKeyUsage []x509.ExtKeyUsage
 	OCSPServers []string
 	CDP         []string
+	RawSubject  []byte // complete DER Name, used instead of CN (RDN order / grouping under the caller's control)
 }
 
 var serialCounter int64 = 1000
@@ -118,6 +119,7 @@ func NewCA(o CAOpts) *CA {
 		ExtKeyUsage:           o.ExtKeyUsage,
 		OCSPServer:            o.OCSPServers,
 		CRLDistributionPoints: o.CDP,
+		RawSubject:            o.RawSubject,
 	}
 	if !o.NoKeyUsage {
 		tmpl.KeyUsage = x509.KeyUsageCertSign | x509.KeyUsageDigitalSignature
@@ -146,6 +148,8 @@ type LeafOpts struct {
 	EC     bool
 	Key    crypto.Signer
 	SKI    []byte
+	NoKU   bool // no key usage extension at all
+	RawSub []byte // complete DER subject name (instead of CN)
 }
 
 type Leaf struct {
@@ -176,6 +180,12 @@ func (ca *CA) IssueLeaf(o LeafOpts) *Leaf {
 		CRLDistributionPoints: o.CDP,
 		OCSPServer:            o.OCSP,
 		SubjectKeyId:          o.SKI,
+	}
+	if o.NoKU {
+		tmpl.KeyUsage = 0
+	}
+	if o.RawSub != nil {
+		tmpl.RawSubject = o.RawSub
 	}
 	der, err := x509.CreateCertificate(rand.Reader, tmpl, ca.Cert, key.Public(), ca.Key)
 	must(err)
